@@ -30,7 +30,7 @@ func init() {
 		ID:    "C13",
 		Level: "model_checking",
 		Rule: "stateless model checking of the real implementation under a cooperative scheduler: 2 goroutines (thorough: also 3) sanitise different short inputs on ONE finished policy built with three overlapping element patterns carrying attribute and style rules, global / element / pattern style rules, a custom URL check, a src rewriter and link options; " +
-			"scheduling points = every statement of package bluemonday and function entries / loop heads of package css (overlay); depth-first search over choice sequences with iterative preemption bounding (quick: c<=2 on two input pairs and c<=1 on four more; thorough: c<=2 on all six pairs, three goroutines at c<=1, c<=3 and map orders on a pair of very short inputs, two calls per goroutine at c<=2, and last three goroutines at c<=2 as far as the budget allows); executions always run to completion; " +
+			"scheduling points = every statement of package bluemonday and function entries / loop heads of package css (overlay); depth-first search over choice sequences with iterative preemption bounding (quick: c<=2 on one input pair and on two short documents with removed elements, c<=1 on five more pairs and on the streaming entry point; thorough: c<=2 on all six pairs, three goroutines at c<=1, c<=3 and map orders on a pair of very short inputs, two calls per goroutine at c<=2, and last three goroutines at c<=2 as far as the budget allows); executions always run to completion; " +
 			"in a second exploration every execution of a `range` over a map is a choice among all permutations of its keys (deviation bound 2 from sorted order, alone and combined with <=1 preemption). " +
 			"Before anything else, in the fresh process: after a warm-up of calls on the shared policy, fresh instances of two other policies must reproduce the probe outputs they gave before (results do not depend on earlier calls on another policy). Sequential histories: on 13 policies (shared policy, shipped policies, link options followed by RequireParseableURLs(false), shorthand CSS properties, ...), for all ordered pairs (x, y) of 119 inputs, y after x on one fresh instance equals the result of the first and only call of a fresh process (so that process-global state cannot taint the reference); a deviation is re-derived with the shortest history that reproduces in a fresh process. Oracle per execution: every call returns exactly the sequential result, repeated calls agree, and sanitising does not change later behaviour: the deep snapshot of the policy object graph is compared before and after every execution (package-level variables every 32nd) and, if it changed, the used policy must still agree with a fresh one on 11 probe documents (an object change without behaviour change is noted in the evidence, not reported). A recorded schedule is replayed twice and must reproduce the same point trace. " +
 			"Separately (outside the family, because a cooperative scheduler's hand-offs are happens-before edges): the same bodies run free under Go's race detector, 4 goroutines x 2000 iterations. " +
@@ -783,6 +783,16 @@ func runC13(c *run.Ctx) {
 				exploreC13(c, dmk, []string{din}, 1, false, true, 0, 2, []string{dseq}, fmt.Sprintf("maporder-disjoint-patterns%d", di))
 			}
 		}
+		// two very short documents, each with a differently named element that is removed for lack of attributes (the
+		// closing-tag bookkeeping of one call must not meet the other's): every interleaving with <=2 preemptions
+		{
+			dropped := []string{`<a>x</a>`, `<my-y>y</my-y>u`}
+			dseq := make([]string, len(dropped))
+			for i, in := range dropped {
+				dseq[i], _ = San(mk(), in)
+			}
+			exploreC13(c, mk, dropped, 1, true, false, 2, 0, dseq, "2g-dropped-elements-c2")
+		}
 		pairs := [][]int{{0, 1}, {0, 3}, {1, 2}, {2, 3}, {1, 3}, {0, 2}}
 		for pi, pr := range pairs {
 			ins := []string{c13Inputs[pr[0]], c13Inputs[pr[1]]}
@@ -793,8 +803,8 @@ func runC13(c *run.Ctx) {
 		// the streaming entry point into a destination whose Write parks the goroutine
 		exploreC13(c, mk, []string{c13Inputs[0], c13Inputs[2]}, 101, true, false, 1, 0, []string{seq[0], seq[2]}, "2g-writer-c1")
 		for pi, pr := range pairs {
-			if c.Quick() && pi >= 2 {
-				break // quick: two pairs at c<=2 (the other four at c<=1 above)
+			if c.Quick() && pi >= 1 {
+				break // quick: one pair (and the two short documents above) at c<=2, the other pairs at c<=1
 			}
 			ins := []string{c13Inputs[pr[0]], c13Inputs[pr[1]]}
 			sq := []string{seq[pr[0]], seq[pr[1]]}
